@@ -88,9 +88,9 @@ def modeOf : String → Option Mode
   | "DEFAULT" => some .default | "ONCE" => some .once | "NOWAIT" => some .nowait | _ => none
 
 def ownerName : Owner → String
-  | .async => "async" | .h id => hn id | .signal => "signal" | .other => "other"
+  | .async => "async" | .h id => hn id | .inotify => "inotify" | .signal => "signal" | .other => "other"
 def ownerOf (w : String) : Owner :=
-  if w == "async" then .async else if w == "signal" then .signal
+  if w == "async" then .async else if w == "signal" then .signal else if w == "inotify" then .inotify
   else match hId w with | some h => .h h | none => .other
 
 def b01 (b : Bool) : String := if b then "1" else "0"
